@@ -92,6 +92,15 @@ class CallGraph:
             self._timpl = idx
         return self._timpl
 
+    def _conv_index(self):
+        if getattr(self, "_conv", None) is None:
+            idx = {}
+            for p, f in self.F.fns.items():
+                if f.get("impl_trait") in ("std::convert::From", "std::convert::TryFrom") and f.get("name") in ("from", "try_from") and f["argc"] == 1:
+                    idx.setdefault((f["name"] == "try_from", f["locals"][1], f.get("impl_self")), set()).add(p)
+            self._conv = idx
+        return self._conv
+
     def _callbacks(self, t):
         out = set()
         ti = self._type_impls()
@@ -136,6 +145,12 @@ class CallGraph:
                         out.add(ip)
                     if c in F.fns:
                         out.add(c)
+                elif r and r not in F.fns and c in ("std::convert::Into::into", "std::convert::TryInto::try_into") and len(t.get("gargs") or ()) == 2:
+                    # `x.into()` / `x.try_into()` through the std blanket impl: the workspace's From / TryFrom impl between the
+                    # two instantiated types is what runs
+                    out.update(self._conv_index().get((c.endswith("try_into"), t["gargs"][0], t["gargs"][1]), ()))
+                    if self.callbacks:
+                        out.update(self._callbacks(t))
                 elif r and r not in F.fns:
                     # resolved to library code: it may call back into the workspace through trait impls of the
                     # workspace types it is instantiated with (From via Into, Display via to_string/format, Hash/Eq via
@@ -505,3 +520,27 @@ def with_helpers(F, path, depth=2, limit=300, exclude=()):
             return len(callee["blocks"]) <= limit
         _WH[k] = (mir.inline_calls(F, base, want=want, depth=depth), want)
     return _WH[k][0]
+
+
+def row_lookup(rows, present):
+    """Reviewed rows keyed `<fn path>|<what>`: a row whose own site no longer exists (the function was renamed, moved or inlined
+    into its caller) still speaks for an untabled site of the same `<what>` in the same crate.  Returns lookup(key) ->
+    (reason, relocated_from or None) or None.  A row whose site still exists is never reused for another site."""
+    import re as _re
+
+    def sig(k):
+        m = _re.search(r"\btx3[a-z_]*", k)
+        return (m.group(0) if m else "", k.split("|", 1)[1].split("|#")[0] if "|" in k else "")
+    moved = {}
+    for k, reason in rows.items():
+        if k not in present:
+            moved.setdefault(sig(k), (reason, k))
+
+    def lookup(key):
+        if key in rows:
+            return rows[key], None
+        m = moved.get(sig(key))
+        if m:
+            return m[0], m[1]
+        return None
+    return lookup
